@@ -116,6 +116,65 @@ static bool make_multi(Rng& r, Problem& P) {
   return true;
 }
 
+// a square system whose first equation has a POLE between two exactly known zeros: (x0-a) - c/(x0-q) = 0 with zeros r1 < q < r2
+// (a = r1+r2-q, c = (q-r1)(r2-q) > 0: the derivative 1 + c/(x0-q)^2 is positive wherever it is defined, so that its enclosure
+// over a box containing the pole is "regular" but unbounded: the mean value theorem does not hold across the pole);
+// the other equations are affine in x0.  All the numbers are dyadic: the zeros are exact.
+static bool make_pole(Rng& r, Problem& P) {
+  int n = r.range(1, 2); P.n = n; P.m = n; P.k = 0;
+  double r1 = r.range(-16, 8) / 8.0, q = r1 + r.range(1, 8) / 8.0, r2 = q + r.range(1, 8) / 8.0;
+  if (r.coin(30)) { q = r1 + 1.0 / 1024; }          // a zero very close to the pole (the other one far away)
+  double a = r1 + r2 - q, c = (q - r1) * (r2 - q);
+  SystemFactory fac;
+  Array<const ExprSymbol> x(n); for (int i = 0; i < n; i++) x.set_ref(i, ExprSymbol::new_(("x" + to_string(i)).c_str(), Dim::scalar()));
+  vector<double> ca(n, 0.0), cb(n, 0.0); for (int j = 1; j < n; j++) { ca[j] = r.range(-4, 4) / 2.0; cb[j] = dyadic(r); }
+  IntervalVector box(n);
+  box[0] = Interval(r1 - r.range(1, 16) / 8.0, r2 + r.range(1, 16) / 8.0);
+  for (int j = 1; j < n; j++) box[j] = Interval(-16, 16);
+  fac.add_var(x, box);
+  P.dags = ""; P.specs = ""; P.planted.clear();
+  for (double z : {r1, r2}) { Vector p(n); p[0] = z; for (int j = 1; j < n; j++) p[j] = ca[j] * z + cb[j]; P.planted.push_back(p); }
+  for (int j = 0; j < n; j++) {
+    const ExprNode* e;
+    if (j == 0) { switch (r.below(3)) {
+        case 0: e = &((x[0] - a) - c / (x[0] - q)); break;
+        case 1: e = &(c / (q - x[0]) + (x[0] - a)); break;
+        default: e = &((x[0] - a) - c * pow(x[0] - q, -1)); } }
+    else e = &(x[j] - ca[j] * x[0] - cb[j]);
+    if (j) { P.dags += "|"; P.specs += "|"; }
+    P.dags += dump_expr(*e, x); P.specs += "eq";
+    fac.add_ctr(ExprCtr(*e, EQ));
+  }
+  P.sys = new System(fac);
+  return true;
+}
+
+// a square system whose first equation is only defined on a part of the box: sqrt(x0-a) - b = 0 (zero a+b^2, exact), the box
+// reaching far below a, so that the midpoint of the box (and of many sub-boxes) lies outside the domain of definition
+static bool make_domain(Rng& r, Problem& P) {
+  int n = r.range(1, 2); P.n = n; P.m = n; P.k = 0;
+  double a = dyadic(r), b = r.range(1, 8) / 4.0, z = a + b * b;
+  SystemFactory fac;
+  Array<const ExprSymbol> x(n); for (int i = 0; i < n; i++) x.set_ref(i, ExprSymbol::new_(("x" + to_string(i)).c_str(), Dim::scalar()));
+  vector<double> ca(n, 0.0), cb(n, 0.0); for (int j = 1; j < n; j++) { ca[j] = r.range(-4, 4) / 2.0; cb[j] = dyadic(r); }
+  IntervalVector box(n);
+  box[0] = Interval(a - r.range(8, 64) / 8.0, z + r.range(1, 8) / 8.0);
+  for (int j = 1; j < n; j++) box[j] = Interval(-40, 40);
+  fac.add_var(x, box);
+  P.dags = ""; P.specs = ""; P.planted.clear();
+  { Vector p(n); p[0] = z; for (int j = 1; j < n; j++) p[j] = ca[j] * z + cb[j]; P.planted.push_back(p); }
+  for (int j = 0; j < n; j++) {
+    const ExprNode* e;
+    if (j == 0) e = r.coin() ? &(sqrt(x[0] - a) - b) : &(b - sqrt(x[0] - a));
+    else e = &(x[j] - ca[j] * x[0] - cb[j]);
+    if (j) { P.dags += "|"; P.specs += "|"; }
+    P.dags += dump_expr(*e, x); P.specs += "eq";
+    fac.add_ctr(ExprCtr(*e, EQ));
+  }
+  P.sys = new System(fac);
+  return true;
+}
+
 
 // inequalities (and possibly an equation) that are exactly ACTIVE at the planted point p, a corner of the box:
 // the feasible set is the single point p, a face through p, or a segment
